@@ -67,8 +67,10 @@ def double_text(s):
             return UNSPEC
         fr = Fraction(int(ip + fp), 10 ** len(fp)) * (Fraction(10) ** ex)
         r = to_float(-fr if sign else fr, negative_zero=bool(sign))
-        if r is None or (r == 0.0 and fr != 0):
-            return UNSPEC  # text beyond the double range, or underflowing to zero: not ruled on
+        if r is None:
+            return ERR     # decimal text beyond the double range: "never a wrapped or clamped value" (an infinity would be one)
+        if r == 0.0 and fr != 0:
+            return UNSPEC  # underflowing to zero: rounding, not ruled on
         return r
     if _silent(s) or _NANINF.match(s) or _LOOSE_DBL.match(s) or _HEX_INT.match(s) or re.match(r"[+-]?0[xX]", s):
         return UNSPEC
@@ -153,7 +155,7 @@ def selftest():
     assert double_text("123.456") == 123.456 and double_text("-84.32e7") == -843200000.0
     assert double_text("6.02214e23") == 6.02214e23 and double_text("1.38e-23") == 1.38e-23
     assert str(double_text("-0.0")) == "-0.0" and str(double_text("0")) == "0.0" and double_text("5e-324") == 5e-324
-    assert double_text("1e400") == UNSPEC and double_text("-1e-400") == UNSPEC and str(double_text("-0e5")) == "-0.0"
+    assert double_text("1e400") == ERR and double_text("-1.7976931348623159e308") == ERR and double_text("-1e-400") == UNSPEC and str(double_text("-0e5")) == "-0.0"
     assert double_text("0.30000000000000004") == 0.1 + 0.2 and double_text("1.7976931348623157e308") == 1.7976931348623157e308
     for s in ("", "a", "abc", "1e", "--1", "1a", "1.0.0", "e5", ".", "-", "1e+"):
         assert double_text(s) == ERR, s
